@@ -25,11 +25,25 @@ from histogrammar.defs import (
     Factory,
     JsonFormatException,
 )
+from histogrammar.primitives.count import Count
 from histogrammar.util import basestring, floatToJson, hasKeys, inheritdoc, numeq
 
 
 class Collection:
-    pass
+    def _numpyEach(self, data, weights, shape):
+        """Fill every sub-aggregator with the batch.
+
+        A Count cannot tell how many rows a batch with a scalar weight has: Counts wait until another sub-aggregator
+        has evaluated its quantity and thereby fixed ``shape[0]``.
+        """
+        waiting = []
+        for x in self.values:
+            if shape[0] is None and isinstance(x, Count):
+                waiting.append(x)
+            else:
+                x._numpy(data, weights, shape)
+        for x in waiting:
+            x._numpy(data, weights, shape)
 
 
 class Label(Factory, Container, Collection):
@@ -213,8 +227,7 @@ class Label(Factory, Container, Collection):
             self._checkNPWeights(weights, shape)
             weights = self._makeNPWeights(weights, shape)
 
-        for x in self.values:
-            x._numpy(data, weights, shape)
+        self._numpyEach(data, weights, shape)
 
         # no possibility of exception from here on out (for rollback)
         if isinstance(weights, numpy.ndarray):
@@ -447,8 +460,7 @@ class UntypedLabel(Factory, Container, Collection):
             self._checkNPWeights(weights, shape)
             weights = self._makeNPWeights(weights, shape)
 
-        for x in self.values:
-            x._numpy(data, weights, shape)
+        self._numpyEach(data, weights, shape)
 
         # no possibility of exception from here on out (for rollback)
         if isinstance(weights, numpy.ndarray):
@@ -681,8 +693,7 @@ class Index(Factory, Container, Collection):
             self._checkNPWeights(weights, shape)
             weights = self._makeNPWeights(weights, shape)
 
-        for x in self.values:
-            x._numpy(data, weights, shape)
+        self._numpyEach(data, weights, shape)
 
         # no possibility of exception from here on out (for rollback)
         if isinstance(weights, numpy.ndarray):
@@ -923,8 +934,7 @@ class Branch(Factory, Container, Collection):
             self._checkNPWeights(weights, shape)
             weights = self._makeNPWeights(weights, shape)
 
-        for x in self.values:
-            x._numpy(data, weights, shape)
+        self._numpyEach(data, weights, shape)
 
         # no possibility of exception from here on out (for rollback)
         if isinstance(weights, numpy.ndarray):
